@@ -38,6 +38,7 @@ Acts ==
   {Act("match_incoming", a, au, p, 0, "", NoneV) : a \in Addrs, au \in BOOLEAN, p \in Patches}
   \cup {Act("save", A1, FALSE, p, i, "", NoneV) : p \in Patches, i \in Ids}
   \cup {Act("patch", A1, FALSE, p, i, "", NoneV) : p \in Patches, i \in Ids}
+  \cup {Act("save_new", a, FALSE, p, 0, "", NoneV) : a \in {A1, A3}, p \in {<<>>, <<KV("callsign", StrV("A"))>>, <<KV("k1", StrV("x"))>>}}
   \cup {Act("match_attr", A1, FALSE, <<>>, 0, "address_in", AddrV(a)) : a \in Addrs}
   \cup {Act("match_attr", A1, FALSE, <<>>, 0, "callsign", v) : v \in {StrV(""), StrV("A"), NoneV}}
   \cup {Act("match_ip", a, FALSE, <<>>, 0, "", NoneV) : a \in {A1, A3, [ip |-> "ip9", port |-> 1]}}
